@@ -131,6 +131,8 @@ TRUSTED = {
     r"pub fn get\(&mut self, width: usize\)": "E9': MaskCache::get outlined (HashMap entry API): returns a BigUint denoting 2^width - 1, i.e. what ValueBigUint::gen_mask(width) "
                                               "is proved to return (the HashMap memoisation is trusted)",
     r"pub struct MaskCache": "E9': MaskCache is opaque (its HashMap field is not modelled)",
+    r"pub fn trunc\(&mut self": "Value::trunc is NOT under contract: it is declared with precondition `false`, so a reachable call is a failed proof (resize only reaches it for operands wider than the context, excluded by the precondition)",
+    r"fn vp_bool_to_u64": "O12: u64::from(bool): true -> 1, false -> 0",
     r"\[usize::min\]|\[<usize as Ord>::min\]": "O5: usize::min = the smaller one",
 }
 
@@ -229,9 +231,237 @@ HELPERS = [
 ]
 
 
+
 CFG = armx.DesugarCfg(
     big_fns={"b0", "b1", "zero", "one", "BigUint::from", "BigUint::zero", "BigUint::one", "ValueBigUint::gen_mask", "Self::gen_mask", "BigUint::from_slice"},
     big_methods={"payload", "mask_xz", "to_bigint", "magnitude"}, big_fields={"payload", "mask_xz"}, big_recv_methods={"mask_cache.get"})
+# Value::expand holds u64 `x.payload` and Box<BigUint> `ret.payload` side by side: fields are not taken as big there
+CFG_NOFIELDS = armx.DesugarCfg(big_fns=CFG.big_fns, big_methods=CFG.big_methods, big_fields=(), big_recv_methods=CFG.big_recv_methods)
+
+EXPAND_SPEC = """    requires wf(*self), width <= 0xffff_ffff,
+    ensures ({ let q = r.val();
+        &&& wf(q)
+        &&& vw(*self) >= width && vw(*self) != 0 ==> q == *self
+        &&& vw(q) == (if vw(*self) >= width && vw(*self) != 0 { vw(*self) } else { width as nat })
+        &&& vp(q) == ext_p(*self, width as nat, use_sign) && vm(q) == ext_m(*self, width as nat, use_sign)
+        &&& !(vw(*self) >= width && vw(*self) != 0) ==> vs(q) == (vw(*self) != 0 && use_sign && vs(*self)) && ((width > 64) == (q is BigUint))
+    }),"""
+EXPAND_START = """        proof {
+            lemma_pow2_small();
+            let xw = vw(*self); let w = width as nat;
+            lemma_low_lt(w);
+            if w <= 64 { lemma_pow2_le(w, 64); }
+            if xw >= 1 && xw < w {
+                lemma_sext(vp(*self), xw, w); lemma_sext(vm(*self), xw, w);
+                lemma_pow2_pos((xw - 1) as nat);
+                if let Value::U64(x) = self {
+                    lemma_u64_bit(x.payload, (x.width - 1) as u64); lemma_u64_bit(x.mask_xz, (x.width - 1) as u64);
+                    if w <= 64 {
+                        lemma_low_lt(xw); lemma_pow2_le(xw, 64);
+                        lemma_sext_u64(x.payload, xw as u64, w as u64, low(w) as u64, low(xw) as u64);
+                        lemma_sext_u64(x.mask_xz, xw as u64, w as u64, low(w) as u64, low(xw) as u64);
+                    }
+                }
+            }
+        }"""
+
+VALUE_HELPERS = [
+    ("width", dict(ret="r", spec="    ensures r == vw(*self),")),
+    ("signed", dict(ret="r", spec="    ensures r == vs(*self),")),
+    ("is_xz", dict(ret="r", spec="    ensures r == (vm(*self) != 0),")),
+    ("to_shift_amount", dict(ret="r", spec="    ensures r == (if vm(*self) != 0 { None } else if vp(*self) <= usize::MAX { Some(vp(*self) as usize) } else { Some(usize::MAX) }),")),
+    ("expand", dict(ret="r", spec=EXPAND_SPEC, start=EXPAND_START, desugar=1, cfg=CFG_NOFIELDS,
+                    eo=[("if msb | msb_xz {", "if msb || msb_xz {", 3)])),
+]
+
+# ---- operator arms --------------------------------------------------------------------------------------------------
+BIN_HDR = "fn %s(x: &Value, y: &Value, width: usize, signed: bool, mask_cache: &mut MaskCache) -> (r: Value)"
+UN_HDR = "fn %s(x: &Value, width: usize, signed: bool, mask_cache: &mut MaskCache) -> (r: Value)"
+CTX_REQ = "    requires wf(*x), wf(*y), 64 < width <= 0xffff_ffff, vw(*x) <= width, vw(*y) <= width,\n"
+XE, YE = "ext_p(*x, width as nat, signed)", "ext_p(*y, width as nat, signed)"
+XM, YM = "ext_m(*x, width as nat, signed)", "ext_m(*y, width as nat, signed)"
+ARITH_POST = ("    ensures r is BigUint, wf(r), vw(r) == width, vs(r) == signed,\n"
+              "        (vm(*x) != 0 || vm(*y) != 0) ==> all_x(r, width as nat),\n"
+              "        (vm(*x) == 0 && vm(*y) == 0) ==> vm(r) == 0 && %s,\n")
+ARITH_START = ("        proof { let w = width as nat; lemma_low_lt(w); lemma_ext_nonzero(vm(*x), vw(*x), w, signed && vs(*x)); lemma_ext_nonzero(vm(*y), vw(*y), w, signed && vs(*y));\n"
+               "            lemma_ext_bound(*x, w, signed); lemma_ext_bound(*y, w, signed);\n%s        }")
+U64_2 = "(Value::U64(x), Value::U64(y))"
+EO_XZ = [(r"if x\.is_xz\(\) \| y\.is_xz\(\) (\{\s*Value::BigUint)", r"if x.is_xz() || y.is_xz() \1", 1)]
+
+ARMS = [
+    dict(name="arm_add", fn="eval_value_binary", pat="Op::Add", kill=U64_2, eo=EO_XZ,
+         spec=CTX_REQ + ARITH_POST % ("vp(r) == (%s + %s) %% pow2(width as nat)" % (XE, YE)),
+         start=ARITH_START % ("            lemma_band_low(%s + %s, w);\n" % (XE, YE)),
+         clause="any x/z -> all x; else (xe + ye) mod 2^w on the operands extended to w (11.4.2, 11.8.2)"),
+]
+
+SIGNED_REQ = "        signed ==> vs(*x) && vs(*y),\n"
+SX, SY = "sval(%s, width as nat)" % XE, "sval(%s, width as nat)" % YE
+DIV_START = ARITH_START % ("            lemma_sval_bound(%s, w); lemma_sval_bound(%s, w);\n"
+                           "            if %s != 0 { lemma_div_small(%s, %s, w); lemma_tdiv_bound(%s, %s); }\n" % (XE, YE, YE, XE, YE, SX, SY))
+ARMS += [
+    dict(name="arm_sub", fn="eval_value_binary", pat="Op::Sub", kill=U64_2, eo=EO_XZ,
+         spec=CTX_REQ + ARITH_POST % ("vp(r) as int == (%s as int - %s as int) %% (pow2(width as nat) as int)" % (XE, YE)),
+         start=ARITH_START % ("            lemma_sub_mod(%s, %s, w);\n" % (XE, YE)),
+         clause="any x/z -> all x; else (xe - ye) mod 2^w (11.4.2)"),
+    dict(name="arm_mul", fn="eval_value_binary", pat="Op::Mul", kill=U64_2, eo=EO_XZ,
+         spec=CTX_REQ + ARITH_POST % ("vp(r) == (%s * %s) %% pow2(width as nat)" % (XE, YE)),
+         start=ARITH_START % ("            lemma_band_low(%s * %s, w);\n" % (XE, YE)),
+         clause="any x/z -> all x; else (xe * ye) mod 2^w (two's complement product of the sign-extended operands) (11.4.2)"),
+    dict(name="arm_div", fn="eval_value_binary", pat="Op::Div", kill=U64_2,
+         spec=CTX_REQ + SIGNED_REQ +
+         "    ensures r is BigUint, wf(r), vw(r) == width, vs(r) == signed,\n"
+         "        (vm(*x) != 0 || vm(*y) != 0 || %s == 0) ==> all_x(r, width as nat),\n"
+         "        (vm(*x) == 0 && vm(*y) == 0 && %s != 0) ==> vm(r) == 0 && (if signed { vp(r) as int == tdiv(%s, %s) %% (pow2(width as nat) as int) } else { vp(r) == %s / %s }),\n" % (YE, YE, SX, SY, XE, YE),
+         start=DIV_START,
+         clause="x/z or zero divisor -> all x; unsigned: floor(xe / ye); signed: quotient of the two's complement values truncated toward zero, modulo 2^w (11.4.2)"),
+    dict(name="arm_rem", fn="eval_value_binary", pat="Op::Rem", kill=U64_2,
+         spec=CTX_REQ + SIGNED_REQ +
+         "    ensures r is BigUint, wf(r), vw(r) == width, vs(r) == signed,\n"
+         "        (vm(*x) != 0 || vm(*y) != 0 || %s == 0) ==> all_x(r, width as nat),\n"
+         "        (vm(*x) == 0 && vm(*y) == 0 && %s != 0) ==> vm(r) == 0 && (if signed { vp(r) as int == trem(%s, %s) %% (pow2(width as nat) as int) } else { vp(r) == %s %% %s }),\n" % (YE, YE, SX, SY, XE, YE),
+         start=DIV_START,
+         clause="x/z or zero divisor -> all x; unsigned: xe mod ye; signed: remainder with the sign of the dividend, modulo 2^w (11.4.2)"),
+]
+
+BITS = "broadcast use lemma_band_bit, lemma_bor_bit, lemma_bxor_bit, lemma_low_bit, lemma_bit_high, lemma_mod_bit, lemma_shl_bit, lemma_shr_bit;"
+BITWISE_START = ("        " + BITS + "\n        proof { let w = width as nat; lemma_low_lt(w); lemma_ext_bound(*x, w, signed); lemma_ext_bound(*y, w, signed); }")
+BITWISE_GHOST = [("                        Value::BigUint(ret)\n",
+                  "                        proof { lemma_bits_bound(bv(*ret.mask_xz), width as nat); lemma_bits_bound(bv(*ret.payload), width as nat); }\n", 1)]
+
+
+def bitwise(name, pat, table, clause):
+    return dict(name=name, fn="eval_value_binary", pat=pat, kill=U64_2,
+                spec=CTX_REQ + "    ensures r is BigUint, wf(r), vw(r) == width,\n"
+                "        forall|k: nat| k < width ==> #[trigger] b4(vp(r), vm(r), k) == %s,\n" % (table % ("b4(%s, %s, k)" % (XE, XM), "b4(%s, %s, k)" % (YE, YM))),
+                start=BITWISE_START, ghost=BITWISE_GHOST, clause=clause + " at every position k < w of the extended operands (11.4.8); result flag `signed` not constrained")
+
+
+ARMS += [
+    bitwise("arm_bitand", "Op::BitAnd", "b4_and(%s, %s)", "4-state AND table"),
+    bitwise("arm_bitor", "Op::BitOr", "b4_or(%s, %s)", "4-state OR table"),
+    bitwise("arm_bitxor", "Op::BitXor", "b4_xor(%s, %s)", "4-state XOR table"),
+    bitwise("arm_bitxnor", "Op::BitXnor", "b4_not(b4_xor(%s, %s))", "4-state XNOR table"),
+]
+
+# self-determined comparison operators: operands are extended to W = max(widths); at least one operand is wider than 64 bits
+CW = "(if vw(*x) >= vw(*y) { vw(*x) } else { vw(*y) })"
+SELF_REQ = "    requires wf(*x), wf(*y), %s > 64, 1 <= width <= 0xffff_ffff,\n" % CW
+
+
+def cmp_args(sx):
+    return "ext_p(*x, %s, %s), ext_m(*x, %s, %s), ext_p(*y, %s, %s), ext_m(*y, %s, %s), %s" % (CW, sx, CW, sx, CW, sx, CW, sx, CW)
+
+
+EQS = "(vs(*x) && vs(*y))"
+CMP_START = ("        proof { let w = %s; let sx = %%s; lemma_low_lt(w); lemma_pow2_small(); lemma_pow2_le(1, width as nat);\n"
+             "            lemma_ext_bound(*x, w, sx); lemma_ext_bound(*y, w, sx);\n%%s        }" % CW)
+EQ_LEMMA = "            lemma_eq_mask(ext_p(*x, w, sx), ext_m(*x, w, sx), ext_p(*y, w, sx), ext_m(*y, w, sx), w); lemma_weq_mask(ext_p(*x, w, sx), ext_m(*x, w, sx), ext_p(*y, w, sx), ext_m(*y, w, sx), w);\n"
+ARMS += [
+    dict(name="arm_eq", fn="eval_value_binary", pat="Op::Eq", kill=U64_2,
+         spec=SELF_REQ + "    ensures is_bit_result(r, width as nat, eq4(%s)),\n" % cmp_args(EQS), start=CMP_START % (EQS, EQ_LEMMA),
+         clause="operands extended to max width (sign-extended iff both signed); some position known in both and different -> 0; else any x/z -> x; else 1; zero-extended to w (11.4.5)"),
+    dict(name="arm_ne", fn="eval_value_binary", pat="Op::Ne", kill=U64_2,
+         spec=SELF_REQ + "    ensures is_bit_result(r, width as nat, b4_not(eq4(%s))),\n" % cmp_args(EQS), start=CMP_START % (EQS, EQ_LEMMA),
+         clause="negation of == (x stays x) (11.4.5)"),
+    dict(name="arm_eq_wildcard", fn="eval_value_binary", pat="Op::EqWildcard", kill=U64_2,
+         spec=SELF_REQ + "    ensures is_bit_result(r, width as nat, weq4(%s)),\n" % cmp_args(EQS), start=CMP_START % (EQS, EQ_LEMMA),
+         clause="x/z positions of the right operand are not compared; known mismatch -> 0; else x/z of the left operand at a compared position -> x; else 1 (11.4.6)"),
+    dict(name="arm_ne_wildcard", fn="eval_value_binary", pat="Op::NeWildcard", kill=U64_2,
+         spec=SELF_REQ + "    ensures is_bit_result(r, width as nat, b4_not(weq4(%s))),\n" % cmp_args(EQS), start=CMP_START % (EQS, EQ_LEMMA),
+         clause="negation of ==? (11.4.6)"),
+]
+
+
+def rel(name, pat, op, clause):
+    post = ("    ensures is_bit_result(r, width as nat, if ext_m(*x, %s, signed) != 0 || ext_m(*y, %s, signed) != 0 { B4::X } else if "
+            "(if signed { sval(ext_p(*x, %s, signed), %s) %s sval(ext_p(*y, %s, signed), %s) } else { ext_p(*x, %s, signed) %s ext_p(*y, %s, signed) }) { B4::One } else { B4::Zero }),\n"
+            % (CW, CW, CW, CW, op, CW, CW, CW, op, CW))
+    return dict(name=name, fn="eval_value_binary", pat=pat, kill=U64_2, spec=SELF_REQ + SIGNED_REQ + post, start=CMP_START % ("signed", ""),
+                clause="operands extended to max width; any x/z -> x; else %s on the two's complement values if the comparison is signed (both operands signed), on the magnitudes otherwise; zero-extended to w (11.4.4)" % clause)
+
+
+LOGIC_LEMMA = "            lemma_truth_mask(ext_p(*x, w, sx), ext_m(*x, w, sx), w); lemma_truth_mask(ext_p(*y, w, sx), ext_m(*y, w, sx), w);\n"
+TX = "truth(ext_p(*x, %s, false), ext_m(*x, %s, false), %s)" % (CW, CW, CW)
+TY = "truth(ext_p(*y, %s, false), ext_m(*y, %s, false), %s)" % (CW, CW, CW)
+ARMS += [
+    rel("arm_greater", "Op::Greater", ">", "x > y"),
+    rel("arm_greater_eq", "Op::GreaterEq", ">=", "x >= y"),
+    rel("arm_less", "Op::Less", "<", "x < y"),
+    rel("arm_less_eq", "Op::LessEq", "<=", "x <= y"),
+    dict(name="arm_logic_and", fn="eval_value_binary", pat="Op::LogicAnd", kill=U64_2,
+         spec=SELF_REQ + "    ensures is_bit_result(r, width as nat, and4(%s, %s)),\n" % (TX, TY), start=CMP_START % ("false", LOGIC_LEMMA),
+         clause="3-valued AND of the operands' truth values (true: some known 1; false: all bits known 0; else x); a definitely-false operand decides (11.4.7)"),
+    dict(name="arm_logic_or", fn="eval_value_binary", pat="Op::LogicOr", kill=U64_2,
+         spec=SELF_REQ + "    ensures is_bit_result(r, width as nat, or4(%s, %s)),\n" % (TX, TY), start=CMP_START % ("false", LOGIC_LEMMA),
+         clause="3-valued OR of the operands' truth values (11.4.7)"),
+]
+
+BITS0 = BITS[:-1] + ", lemma_bit0;"
+SHIFT_REQ = "    requires wf(*x), wf(*y), 64 < width <= 0xffff_ffff, vw(*x) <= width, vw(*y) >= 1,\n"
+SHIFT_START = ("        let ghost vp_s = vp(*y);\n        proof { let w = width as nat; lemma_low_lt(w); lemma_ext_bound(*x, w, signed); lemma_pow2_small();\n"
+               "            lemma_msb_test(%s, (w - 1) as nat); lemma_msb_test(%s, (w - 1) as nat); }" % (XE, XM))
+SH = "vp(*y)"
+
+
+def shift(name, pat, body, clause, ghost, extra_req=""):
+    return dict(name=name, fn="eval_value_binary", pat=pat, kill="Value::U64(x)",
+                spec=SHIFT_REQ + extra_req + "    ensures r is BigUint, wf(r), vw(r) == width,\n        vm(*y) != 0 ==> all_x(r, width as nat),\n"
+                "        vm(*y) == 0 ==> forall|k: nat| k < width ==> #[trigger] b4(vp(r), vm(r), k) == (%s),\n" % body,
+                start=SHIFT_START,
+                ghost=[("                            let ret = Value::BigUint(ret);\n", "                            proof { let w = width as nat; let s = vp_s;\n%s                            }\n" % ghost, 1)],
+                clause="left operand extended to w; amount = the right operand read as unsigned, x/z amount -> all x; " + clause + " (11.4.10); result flag `signed` not constrained")
+
+
+# in the ghost blocks `x` is the extended operand (a &ValueBigUint) and `y` the amount the code uses
+G_SHL = ("                                lemma_shl(bv(*x.payload), w, y as nat, s); lemma_shl(bv(*x.mask_xz), w, y as nat, s);\n"
+         "                                assert(bv(*ret.payload) == shl_val(bv(*x.payload), w, y as nat)); assert(bv(*ret.mask_xz) == shl_val(bv(*x.mask_xz), w, y as nat));\n")
+G_SHR = "                                lemma_shr(bv(*x.payload), w, y as nat, s); lemma_shr(bv(*x.mask_xz), w, y as nat, s);\n"
+G_ASHR = ("                                let mp = signed && bit(bv(*x.payload), (w - 1) as nat); let mm = signed && bit(bv(*x.mask_xz), (w - 1) as nat);\n"
+          "                                lemma_ashr(bv(*x.payload), w, y as nat, s, mp); lemma_ashr(bv(*x.mask_xz), w, y as nat, s, mm);\n"
+          "                                assert(bv(*ret.payload) == ashr_val(bv(*x.payload), w, y as nat, mp)); assert(bv(*ret.mask_xz) == ashr_val(bv(*x.mask_xz), w, y as nat, mm));\n")
+LEFT = "if k >= %s { b4(%s, %s, (k - %s) as nat) } else { B4::Zero }" % (SH, XE, XM, SH)
+ARMS += [
+    shift("arm_shl", "Op::LogicShiftL", LEFT, "bit k = bit k-s of x, 0 below s (amounts >= w clear everything)", G_SHL),
+    shift("arm_ashl", "Op::ArithShiftL", LEFT, "as <<", G_SHL),
+    shift("arm_shr", "Op::LogicShiftR", "if k + %s < width { b4(%s, %s, k + %s) } else { B4::Zero }" % (SH, XE, XM, SH), "bit k = bit k+s of x, 0 from w-s up", G_SHR),
+    shift("arm_ashr", "Op::ArithShiftR", "if k + %s < width { b4(%s, %s, k + %s) } else if signed { b4(%s, %s, (width - 1) as nat) } else { B4::Zero }" % (SH, XE, XM, SH, XE, XM),
+          "bit k = bit k+s of x; vacated positions take the sign position (x/z included) when the result type is signed, else 0", G_ASHR, extra_req="        signed ==> vs(*x),\n"),
+]
+
+UN_REQ = "    requires wf(*x), 64 < width <= 0xffff_ffff, vw(*x) <= width,\n"
+UN_START = "        " + BITS0 + "\n        proof { let w = width as nat; lemma_low_lt(w); lemma_ext_bound(*x, w, signed); lemma_ext_nonzero(vm(*x), vw(*x), w, signed && vs(*x)); lemma_neg(%s, w); }" % XE
+P, M, W = "vp(*x)", "vm(*x)", "vw(*x)"
+RED_REQ = "    requires wf(*x), *x is BigUint, 1 <= width <= 0xffff_ffff,\n"
+RED_START = "        proof { lemma_low_lt(%s); lemma_pow2_small(); lemma_pow2_le(1, width as nat); lemma_known0_mask(%s, %s, %s); lemma_truth_mask(%s, %s, %s); }" % (W, P, M, W, P, M, W)
+RAND = "(if exists|k: nat| k < %s && #[trigger] known0(%s, %s, k) { B4::Zero } else if %s != 0 { B4::X } else { B4::One })" % (W, P, M, M)
+ROR = "truth(%s, %s, %s)" % (P, M, W)
+RXOR = "(if %s != 0 { B4::X } else if popn(%s) %% 2 == 1 { B4::One } else { B4::Zero })" % (M, P)
+
+
+def red(name, pat, b, clause):
+    return dict(name=name, fn="eval_value_unary", pat=pat, kill="Value::U64(x)", into=("ret.into()" if "Xor" in pat or "Xnor" in pat else None), spec=RED_REQ + "    ensures is_bit_result(r, width as nat, %s),\n" % b, start=RED_START,
+                clause="operand self-determined (a big-integer value); " + clause + "; 1-bit result zero-extended to w (11.4.9)")
+
+
+ARMS += [
+    dict(name="arm_u_plus", fn="eval_value_unary", pat="Op::Add", spec=UN_REQ + "    ensures wf(r), r is BigUint, vw(r) == width, vp(r) == %s, vm(r) == %s,\n" % (XE, XM), start=UN_START,
+         clause="the operand extended to w (11.4.3)"),
+    dict(name="arm_u_minus", fn="eval_value_unary", pat="Op::Sub", kill="Value::U64(x)",
+         spec=UN_REQ + "    ensures r is BigUint, wf(r), vw(r) == width, vm(*x) != 0 ==> all_x(r, width as nat),\n"
+         "        vm(*x) == 0 ==> vm(r) == 0 && vp(r) as int == (-(%s as int)) %% (pow2(width as nat) as int),\n" % XE, start=UN_START,
+         clause="any x/z -> all x; else (-xe) mod 2^w (11.4.3)"),
+    dict(name="arm_u_bitnot", fn="eval_value_unary", pat="Op::BitNot", kill="Value::U64(x)",
+         spec=UN_REQ + "    ensures r is BigUint, wf(r), vw(r) == width,\n        forall|k: nat| k < width ==> #[trigger] b4(vp(r), vm(r), k) == b4_not(b4(%s, %s, k)),\n" % (XE, XM),
+         start=UN_START, ghost=BITWISE_GHOST, clause="4-state NOT at every position of the extended operand (11.4.8)"),
+    red("arm_red_and", "Op::BitAnd", RAND, "some known 0 -> 0; else any x/z -> x; else 1"),
+    red("arm_red_nand", "Op::BitNand", "b4_not(%s)" % RAND, "negated reduction AND"),
+    red("arm_red_or", "Op::BitOr", ROR, "some known 1 -> 1; else any x/z -> x; else 0"),
+    red("arm_red_nor", "Op::BitNor | Op::LogicNot", "b4_not(%s)" % ROR, "negated reduction OR (also logical negation `!`)"),
+    red("arm_red_xor", "Op::BitXor", RXOR, "any x/z -> x; else parity of the one bits"),
+    red("arm_red_xnor", "Op::BitXnor", "b4_not(%s)" % RXOR, "negated parity"),
+]
+# @@MORE_ARMS@@
 
 
 def dev_build(ctx, res, only=None):
@@ -305,7 +535,59 @@ def build(ctx, res):
     f.spec("    ensures bv(*r) == low(width as nat),")
     f.prepend("#[verifier::external_body]")
     add(f, "MaskCache::get")
+    open_impl("Value")
+    for fn, c in VALUE_HELPERS:
+        f = v.item("fn", fn, impl="Value")
+        f.drop_attr(r"inline")
+        f.name_return(c["ret"])
+        f.spec(c["spec"])
+        if c.get("start"):
+            f.at_start(c["start"])
+        for old, new, n in c.get("eo", []):
+            f.replace(old, new, count=n, rule="EO: non-short-circuit `|` on bools with a side-effect-free right operand -> `||` (Verus has no bool `|`)")
+        if c.get("desugar"):
+            armx.desugar_ops(f, c.get("cfg", CFG))
+        add(f, "Value::%s" % fn)
+        expect.append("Value::%s" % fn)
+    f = v.item("fn", "trunc", impl="Value")
+    f.replace(f.body_text(), "{ unimplemented!() }", rule="O7': body of Value::trunc dropped (not under contract; precondition `false`)")
+    f.spec("    requires false,")
+    f.prepend("#[verifier::external_body]")
+    add(f, "Value::trunc")
     open_impl(None)
+    fns = {"eval_value_binary": o.item("fn", "eval_value_binary", impl="Op"), "eval_value_unary": o.item("fn", "eval_value_unary", impl="Op")}
+    for name in ("b0", "b1"):
+        f = o.item("fn", name)
+        f.name_return("r")
+        f.spec("    ensures bv(r) == %s," % name[1])
+        add(f)
+        expect.append(name)
+    f = armx.nested_fn(fns["eval_value_binary"], "resize")
+    f.replace("-> std::borrow::Cow<'_, Value>", "-> (r: Cow<'_, Value>)", rule="E1 + S-ret: fully qualified std::borrow::Cow -> the unit's Cow declaration (stub.rs); return value named `r`")
+    f.replace("std::borrow::Cow::Owned(t)", "Cow::Owned(t)", rule="E1: fully qualified std::borrow::Cow -> the unit's Cow declaration (stub.rs)")
+    f.spec("    requires wf(*v), width <= 0xffff_ffff, vw(*v) <= width,\n" + EXPAND_SPEC.split("\n", 1)[1].replace("*self", "*v").replace("use_sign", "signed"))
+    add(f, "resize")
+    expect.append("resize")
+    for a in ARMS:
+        parent = fns[a["fn"]]
+        hdr = (BIN_HDR if a["fn"] == "eval_value_binary" else UN_HDR) % a["name"]
+        f = armx.match_arm(parent, "self", a["pat"], a["name"], hdr)
+        if a.get("kill"):
+            armx.replace_sub_arm(f, a["kill"], "{ vp_unreachable() }", count=a.get("kill_n", 1),
+                                 rule="EB: the <=64-bit sub-arm (proved by Kani in unit opeval) is replaced by a call with precondition `false`, which PROVES it unreachable under this contract")
+        for old, new, n in a.get("eo", []):
+            f.sub(old, new, count=n, rule="EO: non-short-circuit `|` on bools with a side-effect-free right operand -> `||` (Verus has no bool `|`)")
+        armx.desugar_ops(f, CFG)
+        if a.get("into"):
+            f.replace(a["into"], "vp_bool_to_u64(ret)", rule="O12: `b.into()` (bool -> u64) outlined to vp_bool_to_u64(b)")
+        f.spec(a["spec"])
+        if a.get("start"):
+            f.at_start(a["start"])
+        for anchor, ghost, n in a.get("ghost", []):
+            f.replace(anchor, ghost + anchor, count=n, rule="S-ghost: proof block before `%s`" % anchor.strip())
+        add(f, a["name"])
+        expect.append(a["name"])
+        res.clauses[a["name"]] = "%s (%s): %s" % (a["pat"], a["fn"], a["clause"])
     text = vf.finish()
     lemmas = re.findall(r"^(?:pub )?(?:broadcast )?proof fn (lemma_\w+)", text, re.M)
     return [VerusJob("bigeval", text, vf, expect + lemmas, canaries=CANARIES, items=items, trusted=TRUSTED, rlimit=40, extra=["--num-threads", "2"])]
@@ -313,4 +595,27 @@ def build(ctx, res):
 
 CANARIES = [
     ("vp_canary_wfb", "proof fn vp_canary_wfb(v: Value) requires wf(v), v is BigUint, vm(v) != 0, vp(v) != 0, vs(v) ensures false {}"),
+    ("vp_canary_lit", "proof fn vp_canary_lit(v: Value, width: usize) requires wf(v), vw(v) == 0, vp(v) == 1, vm(v) == 1, 64 < width <= 0xffff_ffff ensures false {}"),
+    ("vp_canary_ctx", "proof fn vp_canary_ctx(x: Value, y: Value, width: usize, signed: bool) requires wf(x), wf(y), 64 < width <= 0xffff_ffff, vw(x) <= width, vw(y) <= width, "
+                      "signed, vs(x), vs(y), x is U64, y is BigUint, vm(x) == 0, vm(y) == 0, ext_p(y, width as nat, signed) != 0, bit(vp(x), (vw(x) - 1) as nat), vw(x) >= 2, vw(y) < width ensures false {}"),
+    ("vp_canary_self", "proof fn vp_canary_self(x: Value, y: Value, width: usize, signed: bool) requires wf(x), wf(y), (if vw(x) >= vw(y) { vw(x) } else { vw(y) }) > 64, 1 <= width <= 0xffff_ffff, "
+                       "signed, vs(x), vs(y), x is U64, vm(x) != 0, vw(y) > 100, width < 64 ensures false {}"),
+    ("vp_canary_shift", "proof fn vp_canary_shift(x: Value, y: Value, width: usize, signed: bool) requires wf(x), wf(y), 64 < width <= 0xffff_ffff, vw(x) <= width, vw(y) >= 1, "
+                        "signed, vs(x), vm(y) == 0, vp(y) > usize::MAX, vm(x) != 0 ensures false {}"),
+    ("vp_canary_red", "proof fn vp_canary_red(x: Value, width: usize) requires wf(x), x is BigUint, 1 <= width <= 0xffff_ffff, vm(x) != 0, vp(x) != 0 ensures false {}"),
+    ("vp_canary_bigint", "proof fn vp_canary_bigint(b: BigInt, width: usize) requires width <= 0xffff_ffff, abs(iv(b)) < pow2(width as nat), iv(b) < 0 ensures false {}"),
+    ("vp_canary_stub", "proof fn vp_canary_stub(a: BigUint, b: BigUint) requires bv(a) == 5, bv(b) == 3 ensures false { broadcast use lemma_band_bit, lemma_bor_bit, lemma_bxor_bit, lemma_low_bit, lemma_bit_high, lemma_mod_bit, lemma_shl_bit, lemma_shr_bit, lemma_bit0; }"),
 ]
+
+
+def replay(ctx, res, f):
+    """seeded native differential run: the ORIGINAL text of value.rs / op.rs (real num-bigint) against a bit-serial Vec<u8> reference"""
+    from vp.core import native_search, NATIVE_RNG
+    from units.common import valuelib as VL
+    vtext, _ = VL.value_module(ctx)
+    otext, _ = VL.op_module(ctx)
+    body = "#![allow(unused, unexpected_cfgs, dead_code)]\n" + NATIVE_RNG + VL.PRELUDE + vtext + otext + ctx.unit_file("bigeval", "replay.rs")
+    fn = getattr(f.get("obl"), "fn", None) or ""
+    sel = fn if fn.startswith("arm_") else "all"
+    n = 6000 if sel != "all" else 1500
+    return native_search(ctx, "bigeval", "bigeval", body, args=[ctx.seed, sel, n], timeout=1500, deps=VL.DEPS)
